@@ -136,8 +136,10 @@ class GlomError(Exception):
         # defined in pure-python as well as C
         exc_type = type(exc)
         bases = (GlomError,) if issubclass(GlomError, exc_type) else (exc_type, GlomError)
-        exc_wrapper_type = type(f"GlomError.wrap({exc_type.__name__})", bases, {})
         try:
+            # (a class may refuse to be subclassed like this: __init_subclass__
+            # with required arguments, a metaclass that forbids it)
+            exc_wrapper_type = type(f"GlomError.wrap({exc_type.__name__})", bases, {})
             wrapper = exc_wrapper_type(*exc.args)
             if wrapper.args != exc.args:  # re-creation changed the args
                 return exc
